@@ -360,10 +360,13 @@ class Canon:
         return [st]
 
 
-def canonical(tree):
+def canonical(tree, rel=None):
     """Return the canonical form of a module tree (the argument is consumed)."""
     if "ALL" in OFF:
         return tree
+    if rel is not None:
+        tree = inline_helpers(tree, rel)
+        ast.fix_missing_locations(tree)
     return Canon().module(tree)
 
 
@@ -381,3 +384,230 @@ def canonical_snippet(text):
     c.counts[id(f)] = {} if text.lstrip().startswith("#keep") else c._count(f)
     f.body = c.block(f.body, f)
     return f.body
+
+
+# ---------------------------------------------------------------------------------------------------------------
+# H1: inlining of helper functions that today's (reviewed) tree does not have
+# ---------------------------------------------------------------------------------------------------------------
+#
+# "Extract a helper" is the most common clean-up.  The analyses are intraprocedural with summaries for the functions of
+# the reviewed tree (hyverif/known_functions.json); a helper that is not in that list and is simple - straight-line exit:
+# at most one `return`, as its last statement; no recursion, generators, decorators or nested definitions - is expanded
+# at its call sites, so that the caller again reads as it did before the extraction.  Anything else is left alone.
+
+import json as _json
+
+_KNOWN = None
+
+
+def known_functions(rel):
+    global _KNOWN
+    if _KNOWN is None:
+        try:
+            with open(os.path.join(os.path.dirname(os.path.abspath(__file__)), "known_functions.json")) as f:
+                _KNOWN = _json.load(f)
+        except OSError:
+            _KNOWN = {}
+    return set(_KNOWN.get(rel, ()))
+
+
+def _simple_helper(f):
+    if not isinstance(f, ast.FunctionDef) or f.decorator_list:
+        return False
+    a = f.args
+    if a.vararg or a.kwarg or a.kwonlyargs or a.posonlyargs:
+        return False
+    body = [s for s in f.body if not (isinstance(s, ast.Expr) and isinstance(s.value, ast.Constant) and isinstance(s.value.value, str))]
+    if not body:
+        return False
+    rets = [n for n in ast.walk(f) if isinstance(n, ast.Return)]
+    if len(rets) > 1 or (rets and rets[0] is not body[-1]):
+        return False
+    for n in ast.walk(f):
+        if n is not f and isinstance(n, (ast.FunctionDef, ast.AsyncFunctionDef, ast.ClassDef, ast.Lambda, ast.Yield, ast.YieldFrom, ast.Await, ast.Global)):
+            return False
+        if isinstance(n, ast.Call) and isinstance(n.func, ast.Name) and n.func.id == f.name:
+            return False
+        if isinstance(n, ast.Call) and isinstance(n.func, ast.Attribute) and n.func.attr == f.name:
+            return False
+    return True
+
+
+class _Inliner:
+    def __init__(self, rel):
+        self.known = known_functions(rel)
+        self.n = 0
+        self.helpers = {}      # simple name -> (FunctionDef, is_method)
+
+    def collect(self, tree):
+        def visit(node, qual, in_class):
+            for ch in ast.iter_child_nodes(node):
+                if isinstance(ch, (ast.FunctionDef, ast.AsyncFunctionDef)):
+                    q = qual + ch.name
+                    if q not in self.known and _simple_helper(ch):
+                        self.helpers[ch.name] = (ch, in_class)
+                    visit(ch, q + ".", False)
+                elif isinstance(ch, ast.ClassDef):
+                    visit(ch, qual + ch.name + ".", True)
+                else:
+                    visit(ch, qual, in_class)
+        visit(tree, "", False)
+        return bool(self.helpers)
+
+    def _call_of(self, e):
+        """(helper def, call) if e is a call of a known simple helper with plain positional/keyword arguments."""
+        if not isinstance(e, ast.Call) or any(isinstance(a, ast.Starred) for a in e.args) or any(k.arg is None for k in e.keywords):
+            return None
+        name, is_self = None, False
+        if isinstance(e.func, ast.Name):
+            name = e.func.id
+        elif isinstance(e.func, ast.Attribute) and isinstance(e.func.value, ast.Name) and e.func.value.id in ("self", "cls"):
+            name, is_self = e.func.attr, True
+        if name not in self.helpers:
+            return None
+        f, is_method = self.helpers[name]
+        if is_method != is_self:
+            return None
+        return f
+
+    def expand(self, f, call, is_method):
+        """-> (statements, value expression or None) for one call of helper f."""
+        self.n += 1
+        suf = f"__h{self.n}"
+        params = [a.arg for a in f.args.args]
+        args = list(call.args)
+        if is_method:
+            params = params[1:]
+        bound = {}
+        for p, a in zip(params, args):
+            bound[p] = a
+        for k in call.keywords:
+            bound[k.arg] = k.value
+        defaults = dict(zip([a.arg for a in f.args.args][len(f.args.args) - len(f.args.defaults):], f.args.defaults))
+        for p in params:
+            if p not in bound:
+                if p not in defaults:
+                    return None
+                bound[p] = copy.deepcopy(defaults[p])
+        body = [copy.deepcopy(s) for s in f.body if not (isinstance(s, ast.Expr) and isinstance(s.value, ast.Constant) and isinstance(s.value.value, str))]
+        nonlocal_names = set()
+        for s in body:
+            for n in ast.walk(s):
+                if isinstance(n, ast.Nonlocal):
+                    nonlocal_names |= set(n.names)
+        local = set(params)
+        for s in body:
+            for n in ast.walk(s):
+                if isinstance(n, ast.Name) and isinstance(n.ctx, (ast.Store, ast.Del)):
+                    local.add(n.id)
+                elif isinstance(n, ast.ExceptHandler) and n.name:
+                    local.add(n.name)
+        local -= nonlocal_names
+        ren = {x: x + suf for x in local}
+
+        class R(ast.NodeTransformer):
+            def visit_Name(self, node):
+                if node.id in ren:
+                    node.id = ren[node.id]
+                return node
+
+            def visit_ExceptHandler(self, node):
+                self.generic_visit(node)
+                if node.name in ren:
+                    node.name = ren[node.name]
+                return node
+
+            def visit_Nonlocal(self, node):
+                return None
+
+        out = []
+        for p in params:
+            out.append(loc(ast.Assign(targets=[loc(ast.Name(id=ren[p], ctx=ast.Store()), call)], value=bound[p]), call))
+        value = None
+        for s in body:
+            s = R().visit(s)
+            if s is None:
+                continue
+            if isinstance(s, ast.Return):
+                value = s.value
+            else:
+                out.append(s)
+        return out, value
+
+    def block(self, stmts):
+        out = []
+        for st in stmts:
+            for fld in ("body", "orelse", "finalbody"):
+                blk = getattr(st, fld, None)
+                if isinstance(blk, list) and blk and isinstance(blk[0], ast.stmt):
+                    setattr(st, fld, self.block(blk))
+            for h in getattr(st, "handlers", []) or []:
+                h.body = self.block(h.body)
+            for c in getattr(st, "cases", []) or []:
+                c.body = self.block(c.body)
+            out.extend(self.stmt(st))
+        return out
+
+    def stmt(self, st):
+        # the expression of the statement that is evaluated once, first
+        holder = None
+        if isinstance(st, (ast.Assign, ast.AugAssign, ast.Return, ast.Expr, ast.AnnAssign)) and getattr(st, "value", None) is not None:
+            holder = "value"
+        elif isinstance(st, ast.If):
+            holder = "test"
+        elif isinstance(st, (ast.For, ast.AsyncFor)):
+            holder = "iter"
+        if holder is None:
+            return [st]
+        pre = []
+        for _ in range(8):  # several helper calls in one statement: expand one at a time while that keeps evaluation order
+            e = getattr(st, holder)
+            target = None
+            order = list(_eval_order(e))
+            for i, n in enumerate(order):
+                if isinstance(n, ast.Call) and self._call_of(n) is not None:
+                    inside = {id(x) for x in ast.walk(n)}
+                    if all(isinstance(x, _SIMPLE) or id(x) in inside for x in order[:i]):
+                        target = n
+                    break
+            if target is None:
+                break
+            f = self._call_of(target)
+            exp = self.expand(f, target, self.helpers[f.name][1])
+            if exp is None:
+                break
+            stmts, value = exp
+            # arguments of the call may themselves contain helper calls: expand inside the produced statements later
+            pre.extend(self.block(stmts))
+            if value is None:
+                value = loc(ast.Constant(value=None), target)
+
+            class Sub(ast.NodeTransformer):
+                def visit_Call(self, node):
+                    if node is target:
+                        return value
+                    return self.generic_visit(node)
+
+            setattr(st, holder, Sub().visit(e))
+        if isinstance(st, ast.Expr) and isinstance(st.value, ast.Constant):
+            return pre  # a helper called for its effects only
+        return pre + [st]
+
+    def run(self, tree):
+        if not self.collect(tree):
+            return tree
+        for node in ast.walk(tree):
+            if isinstance(node, (ast.FunctionDef, ast.AsyncFunctionDef)) and node.name not in self.helpers:
+                node.body = self.block(node.body) or [ast.Pass()]
+        # nested helper definitions are dropped once expanded (module/class level ones stay: they may have other callers)
+        for node in ast.walk(tree):
+            if isinstance(node, (ast.FunctionDef, ast.AsyncFunctionDef)):
+                kept = [s for s in node.body if not (isinstance(s, ast.FunctionDef) and s.name in self.helpers and self.helpers[s.name][0] is s)]
+                node.body = kept or [ast.Pass()]
+        return tree
+
+
+def inline_helpers(tree, rel):
+    if "H1" in OFF:
+        return tree
+    return _Inliner(rel).run(tree)
